@@ -614,8 +614,6 @@ Section Complete.
 End Complete.
 
 (* ------------------------------------------------------------------ objective and maximality (C14 part) *)
-Definition rewarded_f (I : tinst) (x : ttask) : bool :=
-  match ti_flavour I with Gurobi => rewarded I x | Cplex => true end.
 Definition taskval (I : tinst) (a : assignment) (y : ttask) : Z :=
   sumf (fun c => (match c with (_, t, _) => reward_num I t end) * a (cell_var y c)) (var_cells I y).
 
@@ -625,21 +623,20 @@ Proof.
   rewrite (Hn x (or_introl eq_refl)). cbn. f_equal. apply IH. intros; apply Hn; now right.
 Qed.
 
-Lemma obj_eq : forall I a, (forall x, In x (ti_tasks I) -> is_running x = false) -> sat (gen_tetri I) a = true ->
-  objective (gen_tetri I) a = sumf (fun y => if rewarded_f I y then taskval I a y else 0) (ti_tasks I).
+Lemma obj_eq_gen : forall I a, sat (gen_tetri I) a = true ->
+  objective (gen_tetri I) a = sumf (fun y => if is_running y then 0 else if rewarded_fb I y then taskval I a y else 0) (ti_tasks I).
 Proof.
-  intros I a Hnr Hsat. unfold objective. cbn [gen_tetri cs_obj]. unfold obj_terms, rewarded_f.
-  assert (Hfree : free_tasks I = ti_tasks I) by (now apply free_all).
+  intros I a Hsat. unfold objective. cbn [gen_tetri cs_obj]. unfold obj_terms, rewarded_fb.
   destruct (ti_flavour I) eqn:Hfl.
-  - rewrite eval_lin_sumf, sumf_flat_map. apply sumf_ext. intros y Hy. rewrite (Hnr y Hy). cbn [orb].
+  - rewrite eval_lin_sumf, sumf_flat_map. apply sumf_ext. intros y Hy. destruct (is_running y); cbn [orb]; [reflexivity|].
     destruct (rewarded I y); cbn [negb]; [|reflexivity]. rewrite sumf_map. unfold taskval. apply sumf_ext.
     intros [[w t] [i s]] _. reflexivity.
-  - rewrite eval_lin_sumf, sumf_flat_map. apply sumf_ext. intros y Hy. rewrite (Hnr y Hy). cbn [sumf fst snd].
+  - rewrite eval_lin_sumf, sumf_flat_map. apply sumf_ext. intros y Hy. destruct (is_running y) eqn:Ry; [reflexivity|]. cbn [sumf fst snd].
     (* the reward row ties the reward variable to the cells *)
     assert (Hr : In (CLin (RRewardRow (tt_id y)) ((1, VReward (tt_id y)) ::
                       map (fun c => match c with (_, t, _) => (- reward_num I t, cell_var y c) end) (var_cells I y)) SEq 0) (task_rows I y)).
     { unfold task_rows. rewrite Hfl. apply in_or_app. right. apply in_or_app. right. now left. }
-    assert (Hyf : In y (free_tasks I)) by (rewrite Hfree; auto).
+    assert (Hyf : In y (free_tasks I)) by (apply free_tasks_In; auto).
     pose proof (sat_rows _ _ _ Hsat (row_of_task _ _ _ Hyf Hr)) as S. cbn [sat_constr cmp] in S.
     rewrite eval_lin_cons, eval_lin_sumf, sumf_map in S.
     assert (E : sumf (fun x0 => fst (let '(_, t, _) := x0 in (- reward_num I t, cell_var y x0)) *
@@ -650,6 +647,11 @@ Proof.
       { induction l as [|[[w t] [i s]] l IH]; cbn [sumf]; [reflexivity|]. rewrite IH. cbn [fst snd]. lia. }
       apply G. }
     rewrite E in S. lia.
+Qed.
+Lemma obj_eq : forall I a, (forall x, In x (ti_tasks I) -> is_running x = false) -> sat (gen_tetri I) a = true ->
+  objective (gen_tetri I) a = sumf (fun y => if rewarded_fb I y then taskval I a y else 0) (ti_tasks I).
+Proof.
+  intros I a Hnr Hsat. rewrite (obj_eq_gen I a Hsat). apply sumf_ext. intros y Hy. now rewrite (Hnr y Hy).
 Qed.
 
 Lemma find_split : forall A (f : A -> bool) l x, find f l = Some x -> exists l1 l2, l = l1 ++ x :: l2.
@@ -720,11 +722,20 @@ Record max_hyp (I : tinst) (rank : Z -> Z) : Prop := mkMH {
 Definition optimal (I : tinst) (a : assignment) : Prop :=
   sat (gen_tetri I) a = true /\ forall a', sat (gen_tetri I) a' = true -> objective (gen_tetri I) a' <= objective (gen_tetri I) a.
 
-Theorem tetri_maximal : forall I rank a x pl, max_hyp I rank -> optimal I a ->
-  In x (ti_tasks I) -> rewarded_f I x = true -> readback_task I a x = None -> pl_task pl = tt_id x ->
-  ~ feasible (conv_tetri I) (to_pinst I) (pl :: plan_of (readback I a)).
+Lemma reward_num_ge_den : forall I t, 0 < ti_disc I -> In t (slots I) -> reward_den I <= reward_num I t.
 Proof.
-  intros I rank a x pl M [Hsat Hopt] Hx Hrew Rx Epl Hfeas.
+  intros I t Hd Ht. pose proof (slots_ge_now I t Hd Ht). pose proof (slot_le_last I t Hd Ht).
+  unfold reward_num, reward_den, first_slot. destruct (last_slot I - ti_now I =? 0) eqn:E; lia.
+Qed.
+
+(* adding a rewarded task to the read-back of a satisfying assignment, if feasible, yields a satisfying assignment
+   that is better by at least one unit of reward (reward_den, the objective being scaled by it) *)
+Lemma tetri_addable_better : forall I rank a x pl, max_hyp I rank -> sat (gen_tetri I) a = true ->
+  In x (ti_tasks I) -> rewarded_fb I x = true -> readback_task I a x = None -> pl_task pl = tt_id x ->
+  feasible (conv_tetri I) (to_pinst I) (pl :: plan_of (readback I a)) ->
+  exists a', sat (gen_tetri I) a' = true /\ objective (gen_tetri I) a + reward_den I <= objective (gen_tetri I) a'.
+Proof.
+  intros I rank a x pl M Hsat Hx Hrew Rx Epl Hfeas.
   pose proof (mh_wf I rank M) as W.
   assert (Hfree : free_tasks I = ti_tasks I) by (apply free_all; apply M).
   set (p' := pl :: plan_of (readback I a)).
@@ -736,15 +747,14 @@ Proof.
     assert (Hyf : In y (free_tasks I)) by (rewrite Hfree; auto).
     apply (cellsum_one_readback I a Hsat y Hyf). rewrite (must_stay_cellsum I a Hsat y Hyf My). lia. }
   pose proof (plan_sat I rank p' CH) as Hsat'.
-  specialize (Hopt _ Hsat').
-  rewrite (obj_eq I _ (mh_norun I rank M) Hsat'), (obj_eq I a (mh_norun I rank M) Hsat) in Hopt.
-  (* the new assignment is worth the old one plus the reward of the added cell *)
+  exists (assign_of_plan I rank p'). split; [exact Hsat'|].
+  rewrite (obj_eq I _ (mh_norun I rank M) Hsat'), (obj_eq I a (mh_norun I rank M) Hsat).
   destruct (plan_cell I rank p' CH x pl Hx) as [w [s [_ [_ [_ [Ht _]]]]]].
   { rewrite (Hfind x Hx), Z.eqb_refl. reflexivity. }
-  pose proof (reward_num_pos I _ (wf_disc I W) Ht) as Hpos.
-  assert (Hge : sumf (fun y => if rewarded_f I y then taskval I a y else 0) (ti_tasks I) +
+  pose proof (reward_num_ge_den I _ (wf_disc I W) Ht) as Hpos.
+  assert (Hge : sumf (fun y => if rewarded_fb I y then taskval I a y else 0) (ti_tasks I) +
                 sumf (fun y => if tt_id y =? tt_id x then reward_num I (pl_start pl) else 0) (ti_tasks I) <=
-                sumf (fun y => if rewarded_f I y then taskval I (assign_of_plan I rank p') y else 0) (ti_tasks I)).
+                sumf (fun y => if rewarded_fb I y then taskval I (assign_of_plan I rank p') y else 0) (ti_tasks I)).
   { rewrite <- sumf_plus. apply sumf_le. intros y Hy.
     assert (Hyf : In y (free_tasks I)) by (rewrite Hfree; auto).
     rewrite (taskval_readback I a y Hsat Hyf), (taskval_readback I _ y Hsat' Hyf).
@@ -754,8 +764,60 @@ Proof.
       { pose proof (find_tt_NoDup _ y (wf_ids I W) Hy) as F1. pose proof (find_tt_NoDup _ x (wf_ids I W) Hx) as F2.
         apply Z.eqb_eq in E. rewrite E in F1. rewrite F1 in F2. now inversion F2. }
       subst y. rewrite PR, Rx, Hrew. lia.
-    - destruct (readback_task I a y) as [q|] eqn:Ry; rewrite PR; destruct (rewarded_f I y); lia. }
+    - destruct (readback_task I a y) as [q|] eqn:Ry; rewrite PR; destruct (rewarded_fb I y); lia. }
   rewrite (sumf_select _ tt_id (fun y => if tt_id y =? tt_id x then reward_num I (pl_start pl) else 0) (ti_tasks I) x (wf_ids I W) Hx) in Hge.
   - cbn beta in Hge. rewrite Z.eqb_refl in Hge. lia.
   - intros y _ Hne. destruct (tt_id y =? tt_id x) eqn:E; [lia|reflexivity].
+Qed.
+
+Lemma reward_den_pos : forall I, wf_inst I -> 1 <= reward_den I.
+Proof.
+  intros I W. unfold reward_den. destruct (last_slot I - first_slot I =? 0) eqn:E; [lia|].
+  assert (ti_now I <= last_slot I) by (unfold last_slot; apply slot_ge_now; apply W). unfold first_slot in *. lia.
+Qed.
+
+Theorem tetri_maximal : forall I rank a x pl, max_hyp I rank -> optimal I a ->
+  In x (ti_tasks I) -> rewarded_fb I x = true -> readback_task I a x = None -> pl_task pl = tt_id x ->
+  ~ feasible (conv_tetri I) (to_pinst I) (pl :: plan_of (readback I a)).
+Proof.
+  intros I rank a x pl M [Hsat Hopt] Hx Hrew Rx Epl Hfeas.
+  destruct (tetri_addable_better I rank a x pl M Hsat Hx Hrew Rx Epl Hfeas) as [a' [Hs' Hb]].
+  specialize (Hopt a' Hs'). pose proof (reward_den_pos I (mh_wf I rank M)). lia.
+Qed.
+
+(* the solvers stop at a relative gap of 10%: an assignment within 10% of the optimum whose (scaled) objective is
+   below 10 units of reward is already maximal — the gap cannot hide one task *)
+Theorem tetri_gap_maximal : forall I rank a x pl, max_hyp I rank -> sat (gen_tetri I) a = true ->
+  (forall a', sat (gen_tetri I) a' = true -> 10 * objective (gen_tetri I) a' <= 11 * objective (gen_tetri I) a) ->
+  objective (gen_tetri I) a < 10 * reward_den I ->
+  In x (ti_tasks I) -> rewarded_fb I x = true -> readback_task I a x = None -> pl_task pl = tt_id x ->
+  ~ feasible (conv_tetri I) (to_pinst I) (pl :: plan_of (readback I a)).
+Proof.
+  intros I rank a x pl M Hsat Hgap Hsmall Hx Hrew Rx Epl Hfeas.
+  destruct (tetri_addable_better I rank a x pl M Hsat Hx Hrew Rx Epl Hfeas) as [a' [Hs' Hb]].
+  specialize (Hgap a' Hs'). lia.
+Qed.
+
+Lemma reward_num_le : forall I t, 0 < ti_disc I -> In t (slots I) -> reward_num I t <= 2 * reward_den I.
+Proof.
+  intros I t Hd Ht. pose proof (slots_ge_now I t Hd Ht). pose proof (slot_le_last I t Hd Ht).
+  unfold reward_num, reward_den, first_slot. destruct (last_slot I - ti_now I =? 0) eqn:E; lia.
+Qed.
+(* no assignment is worth more than two units of reward per task *)
+Lemma obj_upper : forall I a, wf_inst I -> (forall x, In x (ti_tasks I) -> is_running x = false) -> sat (gen_tetri I) a = true ->
+  objective (gen_tetri I) a <= 2 * reward_den I * Z.of_nat (length (ti_tasks I)).
+Proof.
+  intros I a W Hnr Hsat. rewrite (obj_eq I a Hnr Hsat). pose proof (reward_den_pos I W) as Hden.
+  assert (Hfree : free_tasks I = ti_tasks I) by (now apply free_all).
+  assert (G : forall l, (forall y, In y l -> In y (ti_tasks I)) ->
+            sumf (fun y => if rewarded_fb I y then taskval I a y else 0) l <= 2 * reward_den I * Z.of_nat (length l)).
+  { induction l as [|y l IH]; intros Hl; cbn [sumf length]; [lia|].
+    assert (Hy : In y (free_tasks I)) by (rewrite Hfree; apply Hl; now left).
+    specialize (IH (fun z Hz => Hl z (or_intror Hz))).
+    assert (taskval I a y <= 2 * reward_den I /\ 0 <= taskval I a y).
+    { rewrite (taskval_readback I a y Hsat Hy). destruct (readback_task I a y) as [q|] eqn:R; [|lia].
+      apply readback_cell in R. destruct R as [w [t [i [s [_ [Ht [_ [_ [_ [_ ->]]]]]]]]]]. cbn [pl_start].
+      pose proof (reward_num_le I t (wf_disc I W) Ht). pose proof (reward_num_pos I t (wf_disc I W) Ht). lia. }
+    destruct (rewarded_fb I y); lia. }
+  apply G. auto.
 Qed.
